@@ -39,7 +39,7 @@ def load():
     for line in open(os.path.join(ROOT, "properties.jsonl")):
         p = json.loads(line)
         reg.properties[p["id"]] = {"title": p["title"]}
-    for modname in ("layer0", "ind_ma", "ind_simple", "ind_managed", "ind_chain", "movement", "geometry", "faithful", "accessors", "driver", "timeframe", "store"):
+    for modname in ("layer0", "ind_ma", "ind_simple", "ind_managed", "ind_chain", "movement", "geometry", "faithful", "accessors", "driver", "timeframe", "store", "ind_amorph"):
         m = importlib.import_module("contracts." + modname)
         for c in getattr(m, "CONTRACTS", []):
             reg.contracts[c.qualname] = c
